@@ -10,6 +10,8 @@ container types are validated by TraceTrain.tla.
 import copy
 import random
 
+import torch
+
 import common
 import traincheck as tc
 import trainrun
@@ -122,9 +124,19 @@ def run(tier, seed):
     runs = []
     for i in range(120 if tier == "quick" else 1200):
         cfg = random_cfg(rng, tier)
+        side = None
+        if i % 4 == 1:
+            # two live models whose training runs interleave: a callback of this run trains an independent model (its own
+            # data, its own size) for an epoch after the first batch of every epoch of this one
+            other = trainrun.make_state("positive", 2)
+            odata = torch.tensor([[0., 1.], [1., 1.], [1., 0.], [0., 0.], [1., 1.]], dtype=torch.double)
+
+            def side(kind, ep, b, _o=other, _d=odata):
+                if kind == "BE" and b == 0:
+                    _o.fit(_d, epochs=1, pos_batch_size=2, k=1, lr=0.01)
         real = trainrun.real_run(cfg, seed=rng.randrange(10 ** 6), k=rng.randint(0, 1),
-                                 container=rng.choice(conts))
-        runs.append((cfg, real, {}))
+                                 container=rng.choice(conts), interleave=side)
+        runs.append((cfg, real, dict(interleaved=side is not None)))
         if i % 3 == 0 and real["error"] is None:
             # training resumed on the SAME model object with ANOTHER dataset (other rows, other all-Z rows,
             # starting_epoch > 1): every epoch of the second call must batch the second call's data
